@@ -103,6 +103,7 @@ def run_case(case, eng, res):
             for _rep in range(ent[2] if len(ent) > 2 else 1):
                 n0 = len(log)
                 w.deliver(ports[pi], d)
+                w.cycle()  # the loop cycles between two arrivals: a delivery handed to call_soon has been made by then
                 sent.append(dict(cls=cls, port=pi, d=d, r=r, delivered=log[n0:]))
         aio.run(br.stop())
         return sent, log, raise_bits, list(w.loop_errors)
